@@ -60,6 +60,55 @@ let handle (toks : string list) : string =
       pm b (apply_QtY_mat opsFloat rots yy); pm b (apply_QY_mat opsFloat rots yy);
       pm b (apply_YQ opsFloat rots z); pm b (apply_YQt opsFloat rots z);
       Buffer.contents b
+  | kind :: rest when kind = "arnoldi" || kind = "lanczos" ->
+      let r = { rest } in
+      let n = rint r in let m = rint r in let a = rmat r n n in let v0 = rvec r n in
+      let kk = rint r in let shift = rfl r in
+      let rows = List.init n (fun i -> List.map (fun col -> List.nth col i) a) in
+      let eps = ofl !consts.(0) in let near0 = ofl !consts.(1) in let l0717 = ofl 0.717 in
+      let nn = nat_of_int_e n in let mm = nat_of_int_e m in
+      let b = Buffer.create 8192 in
+      let dump (f : fac) (cnt : nat) = pm b f.fV; pm b f.fH; pv b f.ff; pv b [f.fbeta];
+        Buffer.add_string b (string_of_int (int_of_nat_e f.fk)); Buffer.add_char b ' ';
+        Buffer.add_string b (string_of_int (int_of_nat_e cnt)); Buffer.add_char b ' ' in
+      let factorize = if kind = "arnoldi" then arnoldi_factorize_from_k opsFloat near0 eps l0717 rows else lanczos_factorize_from_k opsFloat near0 eps rows in
+      (match init opsFloat near0 eps rows nn mm v0 with
+       | Thrown0 e -> "throw " ^ implode e
+       | Done st ->
+         (match factorize nn mm (nat_of_int_e 1) mm st with
+          | Thrown0 e -> "throw " ^ implode e
+          | Done (f, cnt) ->
+            dump f cnt;
+            if kk > 0 then begin
+              (* one implicit restart: (m - kk) single shifts *)
+              let q = ref (identity opsFloat mm) in
+              let h = ref f.fH in
+              for _ = kk to m - 1 do
+                if kind = "arnoldi" then begin
+                  let (rr, rots) = hqr_compute opsFloat (ofl !cutoff) mm !h shift in
+                  q := apply_YQ opsFloat rots !q;
+                  h := hqr_QtHQ opsFloat rr rots shift
+                end else begin
+                  let d = List.init m (fun i -> List.nth (List.nth !h i) i) in
+                  let sub = List.init (m - 1) (fun i -> List.nth (List.nth !h i) (i + 1)) in
+                  let tq = tqr_compute opsFloat (ofl !cutoff) eps mm d sub shift in
+                  q := apply_YQ opsFloat tq.rots !q;
+                  let (dd, ll) = tqr_QtHQ opsFloat eps mm tq in
+                  let zero = ofl 0.0 in
+                  h := List.init m (fun j -> List.init m (fun i ->
+                         if i = j then List.nth dd i else if i = j + 1 then List.nth ll j else if j = i + 1 then List.nth ll i else zero))
+                end
+              done;
+              let f1 = { f with fH = !h } in
+              let f2 = compress_V opsFloat nn mm (nat_of_int_e kk) !q f1 in
+              Buffer.add_string b "| ";
+              pm b (take kk f2.fV); pm b (List.map (take kk) (take kk f2.fH)); pv b f2.ff; pv b [f2.fbeta];
+              Buffer.add_string b (string_of_int (int_of_nat_e f2.fk)); Buffer.add_char b ' ';
+              (match factorize nn mm (nat_of_int_e kk) mm (f2, cnt) with
+               | Thrown0 e -> Buffer.add_string b ("throw " ^ implode e)
+               | Done (f3, cnt3) -> Buffer.add_string b "| "; dump f3 cnt3)
+            end;
+            Buffer.contents b))
   | "dsqr" :: rest ->
       let r = { rest } in
       let n = rint r in let ss = rfl r in let tt = rfl r in let h = rmat r n n in let y = rvec r n in
